@@ -533,3 +533,170 @@ fn client_and_broker_v5_codecs_interoperate() {
     std::panic::set_hook(prev);
     finish("rumqttc<->rumqttd#v5_publish_interoperates", "C04,C20", "MQTT 5 PUBLISH with every subset of properties (and pings), both directions", cases, fail);
 }
+
+// ---------------------------------------------------------------------------------------------
+// C04: client library codecs through the broker's (round-trip-checked) encodings — every packet type, both versions
+// ---------------------------------------------------------------------------------------------
+/// For every generated packet P: B = broker.encode(P); C = client.decode(B) must succeed and consume B exactly;
+/// B' = client.encode(C) with client.size(C) == bytes written == value returned; client.decode(B') == C; and
+/// broker.decode(B') == P.  Since the broker codec round-trips (tests above), this pins the client decoder and
+/// encoder (including every len()/size() computation) to the same content without a hand-written field mapping.
+// @native props=C04,C20 tier=quick fn=rumqttc::mqttbytes::v4::Packet::{read,write,size}+rumqttc::v5::mqttbytes::v5::Packet::{read,write,size}
+#[test]
+fn client_codecs_reencode_everything_the_broker_encodes() {
+    let prev = std::panic::take_hook();
+    std::panic::set_hook(Box::new(|_| {}));
+    let mut cases = 0;
+    let mut fail: Option<String> = None;
+    'outer: for v4 in [true, false] {
+        for p in packets(v4, big()) {
+            if let Packet::Publish(x, _) = &p {
+                if std::str::from_utf8(&x.topic).is_err() {
+                    continue;
+                }
+            }
+            cases += 1;
+            let mut b = VBytesMut::new();
+            let enc = if v4 { v4::V4.write(p.clone(), &mut b) } else { v5::V5.write(p.clone(), &mut b) };
+            if enc.is_err() {
+                fail = Some(format!("input=[{}] detail=[broker encoder failed]", brief(&p)));
+                break 'outer;
+            }
+            let verdict = std::panic::catch_unwind(std::panic::AssertUnwindSafe(|| -> Result<(), String> {
+                let mut b2 = VBytesMut::new();
+                if v4 {
+                    let mut s = VBytesMut::from(&b[..]);
+                    let c = c4::Packet::read(&mut s, MAXSZ).map_err(|e| format!("client 3.1.1 decoder refused the broker's bytes: {:?}", e))?;
+                    if !s.is_empty() {
+                        return Err(format!("client decoder left {} bytes of the frame", s.len()));
+                    }
+                    let n = c.write(&mut b2, MAXSZ).map_err(|e| format!("client encoder refused {:?}: {:?}", c, e))?;
+                    if n != b2.len() || c.size() != b2.len() {
+                        return Err(format!("client write returned {}, size() says {}, bytes written {} for {:?}", n, c.size(), b2.len(), c));
+                    }
+                    let mut s2 = VBytesMut::from(&b2[..]);
+                    let c2 = c4::Packet::read(&mut s2, MAXSZ).map_err(|e| format!("client cannot decode its own bytes: {:?}", e))?;
+                    if c2 != c || !s2.is_empty() {
+                        return Err(format!("client round trip changed the packet: {:?} -> {:?}", c, c2));
+                    }
+                } else {
+                    let mut s = VBytesMut::from(&b[..]);
+                    let c = c5::Packet::read(&mut s, None).map_err(|e| format!("client MQTT 5 decoder refused the broker's bytes: {:?}", e))?;
+                    if !s.is_empty() {
+                        return Err(format!("client decoder left {} bytes of the frame", s.len()));
+                    }
+                    let n = c.write(&mut b2, None).map_err(|e| format!("client encoder refused {:?}: {:?}", c, e))?;
+                    if n != b2.len() || c.size() != b2.len() {
+                        return Err(format!("client write returned {}, size() says {}, bytes written {} for {:?}", n, c.size(), b2.len(), c));
+                    }
+                    let mut s2 = VBytesMut::from(&b2[..]);
+                    let c2 = c5::Packet::read(&mut s2, None).map_err(|e| format!("client cannot decode its own bytes: {:?}", e))?;
+                    if c2 != c || !s2.is_empty() {
+                        return Err(format!("client round trip changed the packet: {:?} -> {:?}", c, c2));
+                    }
+                }
+                // and the broker reads the client's encoding as the packet it started from
+                let mut s3 = VBytesMut::from(&b2[..]);
+                let back = if v4 { v4::V4.read_mut(&mut s3, MAXSZ) } else { v5::V5.read_mut(&mut s3, MAXSZ) };
+                match back {
+                    Ok(q) if q == p && s3.is_empty() => Ok(()),
+                    other => Err(format!("broker decoded the client's encoding as {:?}", other.map(|x| brief(&x)))),
+                }
+            }));
+            let verdict = match verdict { Ok(v) => v, Err(_) => Err("client codec panicked".to_string()) };
+            if let Err(e) = verdict {
+                fail = Some(format!("input=[{} {}] detail=[{}]", if v4 { "3.1.1" } else { "MQTT 5" }, brief(&p), e));
+                break 'outer;
+            }
+        }
+    }
+    std::panic::set_hook(prev);
+    finish("rumqttc::codecs#reencode_everything_the_broker_encodes", "C04,C20", "generated 3.1.1 and MQTT 5 packet sets, all packet types", cases, fail);
+}
+
+// ---------------------------------------------------------------------------------------------
+// C05: complete-but-malformed frames (truncations and byte mutations of valid packets), all four decoders
+// ---------------------------------------------------------------------------------------------
+/// Every valid encoding E = header ++ body of the generated sets is damaged in every way of the following finite
+/// family, keeping the frame COMPLETE (the remaining length is rewritten to match): body truncated to each shorter
+/// length; each single body byte (first 40 and last 8 positions) replaced by each of 0x00 0x01 0x7f 0x80 0xff.
+/// Oracle: no decoder panics; none asks for more bytes of a complete frame; none consumes beyond the frame.
+// @native props=C05 tier=quick fn=all four decoders on damaged valid frames
+#[test]
+fn decoders_survive_every_damaged_valid_frame() {
+    fn reframe(byte1: u8, body: &[u8]) -> Vec<u8> {
+        let mut out = vec![byte1];
+        let mut x = body.len();
+        loop {
+            let mut b = (x % 128) as u8;
+            x /= 128;
+            if x > 0 { b |= 0x80; }
+            out.push(b);
+            if x == 0 { break; }
+        }
+        out.extend_from_slice(body);
+        out
+    }
+    let prev = std::panic::take_hook();
+    std::panic::set_hook(Box::new(|_| {}));
+    let mut cases = 0u64;
+    let mut fail: Option<String> = None;
+    'outer: for v4 in [true, false] {
+        for p in packets(v4, false) {
+            let mut b = VBytesMut::new();
+            if (if v4 { v4::V4.write(p.clone(), &mut b) } else { v5::V5.write(p.clone(), &mut b) }).is_err() {
+                continue;
+            }
+            if b.len() > 300 {
+                continue;
+            }
+            let hl = if b.len() - 2 < 128 { 2 } else { 3 };
+            let byte1 = b[0];
+            let body = b[hl..].to_vec();
+            let mut variants: Vec<Vec<u8>> = vec![];
+            for cut in 0..body.len() {
+                variants.push(reframe(byte1, &body[..cut]));
+            }
+            for pos in (0..body.len()).filter(|i| *i < 40 || *i + 8 >= body.len()) {
+                for v in [0x00u8, 0x01, 0x7f, 0x80, 0xff] {
+                    if body[pos] != v {
+                        let mut m = body.clone();
+                        m[pos] = v;
+                        variants.push(reframe(byte1, &m));
+                    }
+                }
+            }
+            for frame in variants {
+                for which in 0..2 {
+                    cases += 1;
+                    let mut s = VBytesMut::from(&frame[..]);
+                    s.extend_from_slice(&[0xC0, 0x00]);
+                    let total = s.len();
+                    let r = std::panic::catch_unwind(std::panic::AssertUnwindSafe(|| -> Result<bool, String> {
+                        // Ok(true) = asked for more bytes
+                        match (v4, which) {
+                            (true, 0) => Ok(matches!(v4::V4.read_mut(&mut s, MAXSZ), Err(Error::InsufficientBytes(_)))),
+                            (false, 0) => Ok(matches!(v5::V5.read_mut(&mut s, MAXSZ), Err(Error::InsufficientBytes(_)))),
+                            (true, _) => Ok(matches!(c4::Packet::read(&mut s, MAXSZ), Err(c4b::Error::InsufficientBytes(_)))),
+                            (false, _) => Ok(matches!(c5::Packet::read(&mut s, None), Err(c5b::Error::InsufficientBytes(_)))),
+                        }
+                    }));
+                    let who = match (v4, which) { (true, 0) => "broker 3.1.1", (false, 0) => "broker MQTT 5", (true, _) => "client 3.1.1", _ => "client MQTT 5" };
+                    let consumed = total - s.len();
+                    let problem = match r {
+                        Err(_) => Some("decoder panicked".to_string()),
+                        Ok(Ok(true)) => Some("asks for more bytes although the declared frame is complete".to_string()),
+                        Ok(_) if consumed > frame.len() => Some(format!("consumed {} bytes, the frame has {}", consumed, frame.len())),
+                        _ => None,
+                    };
+                    if let Some(pr) = problem {
+                        fail = Some(format!("input=[{} decoder, damaged form of {}: bytes={:02x?}] detail=[{}]", who, brief(&p), &frame[..frame.len().min(48)], pr));
+                        break 'outer;
+                    }
+                }
+            }
+        }
+    }
+    std::panic::set_hook(prev);
+    finish("decoders_x4#damaged_valid_frames_never_panic_never_wait", "C05", "every truncation and single-byte boundary-value mutation (first 40 / last 8 body positions) of every generated valid packet <= 300 bytes, frame kept complete", cases, fail);
+}
